@@ -178,8 +178,9 @@ def check(ctx):
     hn = repo.fn(f"{A.AGG}.handle_na")
     from ..forms import value_cases
     hx, hd = hn.params[0], hn.params[1]
-    hc = {(norm(leaf), tuple(sorted(t for k, t in f if t == hd and k in ("T", "F")) or ()), tuple(sorted(k for k, t in f if t == hd)))
-          for _, leaf, f in value_cases(hn, "return")}
+    from ..forms import expand as _expand07
+    hc = {(norm(_expand07(hn, leaf, rn)), tuple(sorted(t for k, t in f if t == hd and k in ("T", "F")) or ()), tuple(sorted(k for k, t in f if t == hd)))
+          for rn, leaf, f in value_cases(hn, "return")}
     rets = [s for s in body_nodes(hn.node) if isinstance(s, ast.Return)]
     ok = hc == {(f"{hx}[~{hx}.is_na()]", (hd,), ("T",)), (hx, (hd,), ("F",))}
     ctx.ob("SIB-7", hn, norm(rets[0].value) if rets else "handle_na", rets[0] if rets else hn.node, ok,
